@@ -53,6 +53,30 @@ func runAsmValGCM(c *Ctx) {
 			x[i] ^= tag0[i]
 		}
 		c.Check3("asm.ghash", cl, req, fmt.Sprintf("gcm.ghash.spec %x %x", H, x), impl)
+		// the arm64 listing of gHashBlocks under the (unvalidated) arm64 value semantics, against the specification
+		if n <= 20 || n%7 == 0 {
+			areq := fmt.Sprintf("asm64.ghash %x %x %s", H, tag0, hexOrDash(data))
+			sreq := fmt.Sprintf("gcm.ghash.spec %x %x", H, x)
+			c.Case("asm64.ghash", "arm64-listing/"+cl, false, areq)
+			if model, spec := c.drv.Ask(areq), c.drv.Ask(sreq); model != spec {
+				c.Disagree(Disagreement{Kind: "model!=spec", Class: "arm64-listing/" + cl, Request: areq, SpecReq: sreq, Model: model, Spec: spec, Stream: "asm64.ghash"})
+			}
+		}
+	}
+	// arm64 xorN leaf routines (listing under the arm64 value semantics) against bytewise XOR, in the three calling shapes
+	for _, n := range []int{16, 32, 64, 128, 256} {
+		for _, shape := range []string{"", " dst1", " dst2"} {
+			a, b := c.rng.Bytes(n), c.rng.Bytes(n)
+			want := make([]byte, n)
+			for i := range want {
+				want[i] = a[i] ^ b[i]
+			}
+			areq := fmt.Sprintf("asm64.xor %d %x %x%s", n, a, b, shape)
+			c.Case("asm64.xor", fmt.Sprintf("arm64-listing/xor%d%s", n, shape), false, areq)
+			if model := c.drv.Ask(areq); model != fmt.Sprintf("ok %x", want) {
+				c.Disagree(Disagreement{Kind: "model!=spec", Class: fmt.Sprintf("arm64-listing/xor%d%s", n, shape), Request: areq, Model: model, Spec: fmt.Sprintf("ok %x", want), Stream: "asm64.xor"})
+			}
+		}
 	}
 
 	// ---- sealAsm / openAsm ----
